@@ -321,7 +321,7 @@ Fixpoint min_nick (n : node) (cands : list Z) (best : option (Z * Z)) : result (
 (* select_master *)
 Definition select_master (n : node) : result (node * list output) :=
   bind (master_identifiers n) (fun ms =>
-    let declared := zdiscard 0 ms in
+    let declared := filter (fun m => amem m (n_insts n)) ms in   (* known identifiers only; '' is never one *)
     let all := match declared with
                | [] => map fst (filter (fun kv => istate_eqb (snd kv) IRUNNING) (sm_insts (own n)))
                | _ => declared
@@ -474,7 +474,7 @@ Definition fsm_next (n : node) (orc : oracle) (now : Z) : eval :=
                       | Ok (n3, o3) =>
                           if Z.eqb (master n3) 0 then Ok (n3, o3, Some false)
                           else match inst_state n3 (master n3) with
-                               | None => Crash AttributeError
+                               | None => Ok (n3, o3, Some false)     (* Master unknown locally *)
                                | Some s => Ok (n3, o3, Some (istate_eqb s IRUNNING))
                                end
                       end
@@ -694,12 +694,7 @@ Definition step (n : node) (e : event) : result (node * list output) :=
                     else set_views n (aset j (mkSm st dg m insts) (n_views n)) in
           if Z.eqb j (master n1) then fsm_run n1 orcs now else Ok (n1, [])
       end
-  | Ident None => Crash TypeError
-  | Ident (Some (j, ts)) =>
-      match aget j (n_insts n) with
-      | None => Crash KeyError
-      | Some _ => Ok (n, [])       (* mapper.identify: network data only *)
-      end
+  | Ident _ => Ok (n, [])          (* empty / unknown payloads ignored; mapper.identify: network data only *)
   | Auth og a ts now =>
       match resolve n og with
       | None => Ok (n, [])
@@ -732,7 +727,11 @@ Definition step (n : node) (e : event) : result (node * list output) :=
   | InstFailure og now =>
       match resolve n og with
       | None => Ok (n, [])
-      | Some j => set_inst_state n j FAILED now
+      | Some j =>
+          match inst_state n j with
+          | Some s => if has_active_state s then set_inst_state n j FAILED now else Ok (n, [])
+          | None => Ok (n, [])
+          end
       end
   | ProcCrash strat forced now orcs =>
       if is_master n then
@@ -754,14 +753,17 @@ Definition step (n : node) (e : event) : result (node * list output) :=
   end.
 
 (* ---------- observable ---------- *)
-(* own state-modes (fsm, degraded, master, instance states), per instance (id, state, remote cnt, local cnt),
-   sorted stable identifiers, outputs of the step *)
-Definition nobs := (Z * bool * Z * list (Z * Z) * list (Z * Z * Z * Z) * list Z * list output)%type.
+(* own state-modes (fsm, degraded, master, instance states), the FSM state of the Master as viewed locally (-1 when
+   there is no view), per instance (id, state, remote cnt, local cnt, checking time), sorted stable identifiers,
+   outputs of the step *)
+Definition nobs := (Z * bool * Z * list (Z * Z) * Z * list (Z * Z * Z * Z * Z) * list Z * list output)%type.
 
 Definition observe (n : node) (outs : list output) : nobs :=
   let s := own n in
   (scode (sm_fsm s), sm_degraded s, sm_master s, map (fun kv => (fst kv, icode (snd kv))) (sm_insts s),
-   map (fun kv => (fst kv, icode (is_state (snd kv)), is_remote_cnt (snd kv), is_local_cnt (snd kv))) (n_insts n),
+   match master_state n with Some ms => scode ms | None => -1 end,
+   map (fun kv => (fst kv, icode (is_state (snd kv)), is_remote_cnt (snd kv), is_local_cnt (snd kv),
+                   is_checking_time (snd kv))) (n_insts n),
    zsort (n_stable n), outs).
 
 Inductive obs := NOk (o : nobs) | NCrash (k : crash).
@@ -776,8 +778,9 @@ Fixpoint run (n : node) (evs : list event) : list obs :=
   end.
 
 Definition zz_eqb (a b : Z * Z) : bool := Z.eqb (fst a) (fst b) && Z.eqb (snd a) (snd b).
-Definition z4_eqb (a b : Z * Z * Z * Z) : bool :=
-  match a, b with (a1, a2, a3, a4), (b1, b2, b3, b4) => Z.eqb a1 b1 && Z.eqb a2 b2 && Z.eqb a3 b3 && Z.eqb a4 b4 end.
+Definition z5_eqb (a b : Z * Z * Z * Z * Z) : bool :=
+  match a, b with (a1, a2, a3, a4, a5), (b1, b2, b3, b4, b5) =>
+    Z.eqb a1 b1 && Z.eqb a2 b2 && Z.eqb a3 b3 && Z.eqb a4 b4 && Z.eqb a5 b5 end.
 
 Definition output_eqb (a b : output) : bool :=
   match a, b with
@@ -793,9 +796,9 @@ Definition output_eqb (a b : output) : bool :=
 
 Definition nobs_eqb (a b : nobs) : bool :=
   match a, b with
-  | (f1, d1, m1, i1, s1, st1, o1), (f2, d2, m2, i2, s2, st2, o2) =>
-      Z.eqb f1 f2 && Bool.eqb d1 d2 && Z.eqb m1 m2 && list_eqb zz_eqb i1 i2 && list_eqb z4_eqb s1 s2
-      && list_eqb Z.eqb st1 st2 && list_eqb output_eqb o1 o2
+  | (f1, d1, m1, i1, ms1, s1, st1, o1), (f2, d2, m2, i2, ms2, s2, st2, o2) =>
+      Z.eqb f1 f2 && Bool.eqb d1 d2 && Z.eqb m1 m2 && list_eqb zz_eqb i1 i2 && Z.eqb ms1 ms2
+      && list_eqb z5_eqb s1 s2 && list_eqb Z.eqb st1 st2 && list_eqb output_eqb o1 o2
   end.
 
 Definition obs_eqb (a b : obs) : bool :=
